@@ -48,7 +48,7 @@ CHECKS = {
     note=K_NOTE),
  "C18": dict(engine="S+K", technique="calculus engine over the transplanted ValOpsFactory table with if/else/comparisons interpreted in SMT (ite over reals with a distinguished none value); first and second order (mixed) derivatives decided equal to ite(c, f', g'); Kani cells for if/else/comparisons/to_float in the thorough tier",
     text="Branch-wise differentiation of piecewise expressions decided for all points on a pool of ~450 piecewise expressions (nested, inside arithmetic, parenthesised conditions), order 1 and 2, flat and deep.", ref="4/C18"),
- "C19": dict(engine="M+K", technique="MIR of FloatOpsFactory::make (nightly -Zunpretty=mir) translated entry by entry to SMT-LIB FloatingPoint terms; z3 decides body(a,b) = documented function for all a, b at f64 and f32; counterexamples replayed through the real function pointers",
+ "C19": dict(engine="M+S+K", technique="MIR of FloatOpsFactory::make (nightly -Zunpretty=mir) translated entry by entry to SMT-LIB FloatingPoint terms; z3 decides body(a,b) = documented function for all a, b at f64 and f32; counterexamples replayed through the real function pointers",
     text="Every entry of the default table (34 operators in both roles, 6 constants) is decided to compute the function its name documents, with the documented argument order, for ALL float operands (IEEE + - * / interpreted bit-precisely, num::Float methods as uninterpreted functions named after the method). A body that is not a recognised single call is inconclusive, never a pass.", ref="4/C19",
     note="Trusted: rustc nightly's MIR printer, z3 4.8.12 FP theory, num::Float forwarding to the std primitive (uninterpreted here), the name->primitive table transcribed from the rustdoc of FloatOpsFactory. sat answers are replayed natively through Operator::bin()/unary() of the real f32/f64 tables."),
 }
